@@ -1318,6 +1318,13 @@ fn judge(d: &Design, opts: &fcx::Opts, variable: bool, result: &Result<Vec<u8>, 
                     "post:name-set".to_string()
                 };
                 viol.push((key, format!("post glyph names {names:?}, the source determines {exp_names:?}")));
+                // one defect, one key: the remaining tables are checked against the order the font
+                // really has when that can be read off the names, otherwise not at all
+                if !use_prod && a == b && uniq.len() == names.len() {
+                    actual = names.clone();
+                } else {
+                    return Verdict { stats: st, viol, nontrivial: false, summary };
+                }
             }
         }
         for nm in &names {
